@@ -89,6 +89,20 @@ mod verif_indicators {
 			assert!(a.signal(0) == b.signal(0));
 			k += 1;
 		}
+		// `over` on an instance that already has history continues from its state (and advances it)
+		let (c1, c2): (i8, i8) = (kani::any(), kani::any());
+		let tail = [candle(c1 as ValueType, c1 as ValueType), candle(c2 as ValueType, c2 as ValueType)];
+		let rs = dynamic.over(&tail);
+		assert!(rs.len() == 2);
+		let a1 = IndicatorInstance::next(&mut stat, &tail[0]);
+		let a2 = IndicatorInstance::next(&mut stat, &tail[1]);
+		assert!(rs[0].value(0).to_bits() == a1.value(0).to_bits() && rs[0].value(1).to_bits() == a1.value(1).to_bits());
+		assert!(rs[1].value(0).to_bits() == a2.value(0).to_bits() && rs[1].value(1).to_bits() == a2.value(1).to_bits());
+		let c3: i8 = kani::any();
+		let last = candle(c3 as ValueType, c3 as ValueType);
+		let a3 = IndicatorInstance::next(&mut stat, &last);
+		let b3 = dynamic.next(&last);
+		assert!(a3.value(0).to_bits() == b3.value(0).to_bits());
 	}
 
 	// ---- C08 at indicator level: an indicator initialised with a candle and fed that same candle returns constant values from the first step on ----
